@@ -37,8 +37,20 @@ def pick_args(draw, pool: list[str], lo: int = 0, hi: int = 3, must: list[str] |
 
 
 @st.composite
-def coef_value(draw, pool: list[str], named_pool: list[str]):
+def sign_definite_fn(draw, n: int) -> dict:
+    sgn = draw(st.sampled_from([1.0, -1.0]))
+    c = [sgn * draw(st.integers(1, 24)) / 8 for _ in range(n + 1)]
+    return {"kind": "sq", "n": n, "c": c}
+
+
+@st.composite
+def coef_value(draw, pool: list[str], named_pool: list[str], sign_stable: bool = False):
     which = draw(st.sampled_from(["int", "int", "frac", "named", "computed", "computed"]))
+    if sign_stable and which == "named":
+        which = "computed"
+    if sign_stable and which == "computed" and pool:
+        args = draw(pick_args(pool, 1, 2))
+        return {"fn": draw(sign_definite_fn(len(args))), "args": args}
     if which == "int":
         return draw(st.integers(-3, 3).filter(lambda i: i != 0))
     if which == "frac":
@@ -64,6 +76,7 @@ def full_spec(
     allow_readouts=True,
     allow_time=True,
     ia_weight=1,
+    sign_stable_coefficients=False,
 ) -> dict:
     """A well-formed model spec: hidden topological order, shuffled declaration order."""
     n_par = draw(st.integers(1, max_par))
@@ -173,7 +186,7 @@ def full_spec(
     for d in reactions:
         k = draw(st.integers(1, min(3, len(touchable))))
         tgt = draw(st.lists(st.sampled_from(touchable), min_size=k, max_size=k, unique=True))
-        d[2]["stoich"] = {v: draw(coef_value(coef_pool, named_pool)) for v in tgt}
+        d[2]["stoich"] = {v: draw(coef_value(coef_pool, named_pool, sign_stable_coefficients)) for v in tgt}
     for d in surrogates:
         outs = d[2]["outputs"]
         stoich = {}
@@ -182,7 +195,7 @@ def full_spec(
                 k = draw(st.integers(1, min(2, len(touchable))))
                 tgt = draw(st.lists(st.sampled_from(touchable), min_size=k, max_size=k, unique=True))
                 # surrogate stoichiometries are documented as float | Derived (no named form)
-                stoich[o] = {v: draw(coef_value(coef_pool, [])) for v in tgt}
+                stoich[o] = {v: draw(coef_value(coef_pool, [], sign_stable_coefficients)) for v in tgt}
         d[2]["stoich"] = stoich
 
     if allow_readouts:
